@@ -88,9 +88,11 @@ def check(ctx: Ctx) -> None:
     p = [x for x in fn.params if x != 'self'][0]
     ok = False
     why = 'no try around the table lookup'
+    from ..astutil import expander as _expander0
+    _ex0 = _expander0(fn)        # a local that only names the table (`constellation = self.symbols`) is looked through
     for t in [n for n in walk_no_nested(fn.node) if isinstance(n, ast.Try)]:
         looks = [n for s in t.body for n in ast.walk(s) if isinstance(n, ast.Subscript)
-                 and is_self_attr(n.value, fn.self_name or 'self') == 'symbols' and norm(n.slice) == p]
+                 and is_self_attr(_ex0(n.value), fn.self_name or 'self') == 'symbols' and norm(n.slice) == p]
         if not looks:
             continue
         why = 'no IndexError handler raising ValueError'
